@@ -116,7 +116,7 @@ def ref_merge(o, v):
 
 def params(tier):
     return [P("h1", 0, 2), P("e1", 0, 3), P("h2", 0, 2), P("e2", 0, 3), P("spelling", 0, 3), P("slash", 0, 1),
-            P("extra", 0, 2), P("deep", 0, 1), P("kidnone", 0, 1), P("nestedstart", 0, 1), P("innerctx", 0, 1)]
+            P("extra", 0, 3), P("deep", 0, 1), P("kidnone", 0, 1), P("nestedstart", 0, 1), P("innerctx", 0, 1)]
 
 
 @guard
@@ -124,7 +124,7 @@ def fn(a, tier):
     install_entry_points()
     h1, e1, h2, e2 = pick(a["h1"], 3), pick(a["e1"], 4), pick(a["h2"], 3), pick(a["e2"], 4)
     spelling, slash = pick(a["spelling"], 4), pick(a["slash"], 2)
-    extra = pick(a["extra"], 3)
+    extra = pick(a["extra"], 4)
     deep, kidnone = (1, 0) if tier == "quick" else (pick(a["deep"], 2), pick(a["kidnone"], 2))
     nestedstart = pick(a["nestedstart"], 2)
     innerctx = pick(a["innerctx"], 2)
@@ -155,6 +155,9 @@ def fn(a, tier):
         components["c14extra/cfgonly"] = None  # config-only child, type from the alias
     if deep:
         components["mid"] = {"components": {"deep": {"d": {"q": 2, "r": 2}, "e": None}}}
+    if extra == 3:
+        # a config-only GRANDchild (below the hard-coded container 'mid') whose type comes from its alias
+        components.setdefault("mid", {}).setdefault("components", {})["c14extra/deepcfg"] = None
     config = {"top": {"a": 1}, "components": components}
     pristine = copy.deepcopy(config)
     runs = []
@@ -175,7 +178,7 @@ def fn(a, tier):
     unchanged_after_first = config == pristine
     log2, out2, exc2 = one_run()
     summary = {"hard_coded": {k: HARD_KINDS[v] for k, v in (("k1", h1), ("k2", h2))}, "external": {k: EXT_KINDS[v] for k, v in (("k1", e1), ("k2", e2))},
-               "child_alias": alias, "type_given_as": SPELL[spelling], "config_only_child": ["none", "dict with a class type", "None, type from alias 'c14extra/cfgonly'"][extra],
+               "child_alias": alias, "type_given_as": SPELL[spelling], "config_only_child": ["none", "dict with a class type", "None, type from alias 'c14extra/cfgonly'", "None, below the container 'mid', type from alias 'c14extra/deepcfg'"][extra],
                "external_grandchild_config": bool(deep), "kid_starts_a_subtree_from_its_start": bool(nestedstart), "components_enter_a_context_of_their_own_in_start": bool(innerctx), "alias_absent_from_external_config": bool(kidnone and not ext_kid)}
     if exc1 is not None:
         return FAIL(f"start-failed:{type(exc1).__name__}:spelling={SPELL[spelling]}", repr(exc1), summary)
@@ -193,7 +196,7 @@ def fn(a, tier):
     exp = {"Root": [{"top": {"a": 1}}], "Mid": [{}], "Kid": [exp_kid], "Plain": [{}], "Deep": [exp_deep]}
     if extra == 1:
         exp["Extra"] = [{"n": 5}]
-    elif extra == 2:
+    elif extra in (2, 3):
         exp["Extra"] = [{}]
     if nestedstart:
         exp["SubRoot"] = [{}]
@@ -208,7 +211,7 @@ def fn(a, tier):
         "KidLeaf": [["special" if slash else "default"], ["explicit"], ["default"]],
         "PlainLeaf": [["default"], ["explicit"], ["default"]],
         "DeepLeaf": [["default"], ["explicit"], ["default"]],
-        "ExtraLeaf": [[], [], []] if extra == 0 else [["viaconfig" if extra == 1 else "cfgonly"], ["explicit"], ["default"]],
+        "ExtraLeaf": [[], [], []] if extra == 0 else [[["viaconfig", "cfgonly", "deepcfg"][extra - 1]], ["explicit"], ["default"]],
         "SubRoot": [["default"], ["explicit"], ["default"]] if nestedstart else [[], [], []],
         "SubWorkerLeaf": [["default"], ["explicit"], ["default"]] if nestedstart else [[], [], []],
     }
@@ -226,7 +229,7 @@ H = Harness(
     cube=lambda tier: 4,
     title="hard-coded add_component() kwargs vs external components configuration at two depths; type spellings; aliases; config reuse",
     bound_text=lambda tier: "2 kwargs keys: hard-coded {absent, scalar, nested dict} x external {absent, scalar, None, nested dict}; child type given as {"
-    + ", ".join(SPELL) + "}; alias with/without '/name'; config-only child {none, dict with class type, None with type from alias}; external config for a grandchild; alias present with an empty dict or absent; the child optionally starts a component sub-tree of its own from inside start()",
+    + ", ".join(SPELL) + "}; alias with/without '/name'; config-only child {none, dict with class type, None with type from alias, the same one level further down}; external config for a grandchild; alias present with an empty dict or absent; the child optionally starts a component sub-tree of its own from inside start()",
     oracle="kwargs received by every constructor == reference deep merge(hard-coded, external); exactly the expected components are created; "
     "start_component twice from the same config object gives identical logs and leaves the object == its deep copy; resources added as 'default' "
     "in start() appear under the alias suffix of their own component only, those from prepare() and explicitly named ones never",
@@ -234,4 +237,93 @@ H = Harness(
     stubs=STUBS_COMMON + ("an entry point 'c14leaf' is injected into the real asphalt.components PluginContainer (entry points are environment)",),
 )
 
-HARNESSES = [H]
+
+# ------------------------------------------------------------------------------ G-phase
+import anyio  # noqa: E402
+
+from asphalt.core import current_context  # noqa: E402
+
+PH_TYPES = tuple(type(f"PhaseRes{i}", (), {}) for i in range(5))
+PHASES = ["prepare()", "while its child is starting (from another task, through the component's context)", "start()",
+          "after start_component() returned (from another task, through the component's context)"]
+
+
+def phase_params(tier):
+    return [P("slash", 0, 1), P("named", 0, 1)]
+
+
+@guard
+def phase_fn(a, tier):
+    slash, named = pick(a["slash"], 2), pick(a["named"], 2)
+    holder = {}
+
+    class Child(Component):
+        async def start(self):
+            holder["child_starting"].set()
+            await holder["go_on"].wait()
+
+    class Feed(Component):
+        def __init__(self):
+            self.add_component("child", Child)
+
+        async def prepare(self):
+            holder["cctx"] = current_context()
+            add_resource(object(), types=[PH_TYPES[0]])
+
+        async def start(self):
+            add_resource(object(), types=[PH_TYPES[2]])
+            if named:
+                add_resource(object(), "explicit", [PH_TYPES[4]])
+
+    class Top(Component):
+        def __init__(self):
+            self.add_component("feed/primary" if slash else "feed", Feed)
+
+    out = {}
+
+    async def main():
+        holder["child_starting"], holder["go_on"] = anyio.Event(), anyio.Event()
+        async with Context() as ctx, anyio.create_task_group() as tg:
+
+            async def other_task():
+                await holder["child_starting"].wait()
+                holder["cctx"].add_resource(object(), types=[PH_TYPES[1]])
+                holder["go_on"].set()
+
+            tg.start_soon(other_task)
+            await start_component(Top, {}, timeout=None)
+
+            async def later_task():
+                holder["cctx"].add_resource(object(), types=[PH_TYPES[3]])
+
+            tg.start_soon(later_task)
+            await anyio.wait_all_tasks_blocked()
+            out["names"] = [sorted(ctx.get_resources(t)) for t in PH_TYPES]
+
+    _, exc, _k = run(main)
+    summary = {"alias": "feed/primary" if slash else "feed", "also_adds_an_explicitly_named_resource": bool(named)}
+    if exc is not None:
+        return FAIL(f"phase:raised:{type(exc).__name__}", repr(exc), summary)
+    suffix = "primary" if slash else "default"
+    exp = [["default"], ["default"], [suffix], ["default"], ["explicit"] if named else []]
+    if out["names"] != exp:
+        bad = [PHASES[i] for i in range(4) if out["names"][i] != exp[i]]
+        return FAIL(f"phase:default-named-resource-remapped-outside-start:{bad}" if bad else "phase:explicit-name", f"got {out['names']} expected {exp}", summary)
+    return OK(summary, True)
+
+
+PHASE = Harness(
+    prop="C14",
+    name="G-phase",
+    fn=phase_fn,
+    params=phase_params,
+    cube=lambda tier: 0,
+    title="the `default` -> alias-suffix remapping applies while the component's start() runs and at no other time",
+    bound_text=lambda tier: "component 'feed/primary' (or 'feed') with one child; default-named resources added through the component's context in prepare(), by another "
+    "task while the child is starting, in start(), and by another task after start_component() returned; optionally an explicitly named one in start()",
+    oracle="only the resource added in start() appears under the alias suffix; all others under 'default' / their explicit name",
+    outside="-",
+    stubs=STUBS_COMMON,
+)
+
+HARNESSES = [H, PHASE]
